@@ -66,7 +66,7 @@ TReset ==
     /\ UNCHANGED viol
 
 TObs ==
-    /\ Is("Obs") /\ Adv
+    /\ Is("Obs") /\ e.node = "seq" /\ Adv
     /\ viol' = viol \o Failed(ObsChecks(e), l, run)
     /\ committed' = CommitFrom(e)
     /\ stValid' = TRUE /\ stH' = e.stH /\ stRoot' = e.stRoot /\ stOk' = e.stOk
@@ -78,7 +78,7 @@ TSeqNext ==
     /\ UNCHANGED <<run, ih, committed, published, durH, bh, stValid, stH, stRoot, stOk, settleH, viol>>
 
 TExec ==
-    /\ Is("ExecTxs") /\ Adv
+    /\ Is("ExecTxs") /\ e.node = "seq" /\ Adv
     /\ viol' = viol \o Failed(<<
           <<"C01.ExecInOrder", (e.ok /\ stValid) =>
                 /\ e.prevok
@@ -87,12 +87,12 @@ TExec ==
     /\ UNCHANGED <<run, ih, taken, committed, published, durH, bh, stValid, stH, stRoot, stOk, settleH>>
 
 TBcast ==
-    /\ Is("Bcast") /\ Adv
+    /\ Is("Bcast") /\ e.node = "seq" /\ Adv
     /\ published' = IF e.kind = "hdr" /\ e.ok THEN published \cup {[h |-> e.h, hash |-> e.hash]} ELSE published
     /\ UNCHANGED <<run, ih, taken, committed, durH, bh, stValid, stH, stRoot, stOk, settleH, viol>>
 
 TKV ==
-    /\ Is("KV") /\ Adv
+    /\ Is("KV") /\ e.node = "seq" /\ Adv
     /\ durH' = IF e.kind = "height" THEN MaxOf(durH, e.h) ELSE durH
     /\ bh' = IF e.kind = "block" THEN (e.h :> e.hash) @@ bh ELSE bh
     /\ stValid' = IF e.kind = "state" THEN FALSE ELSE stValid
@@ -104,7 +104,7 @@ TKV ==
     /\ UNCHANGED <<run, ih, taken, committed, published, stH, stRoot, stOk, settleH>>
 
 TRestart ==
-    /\ Is("Restart") /\ Adv
+    /\ Is("Restart") /\ e.node = "seq" /\ Adv
     /\ viol' = viol \o Failed(<< <<"C04.RestartFailed", e.ok, "node cannot start on an image it wrote itself">> >>, l, run)
     /\ UNCHANGED <<run, ih, taken, committed, published, durH, bh, stValid, stH, stRoot, stOk, settleH>>
 
@@ -121,7 +121,8 @@ TPanic ==
 Handled == {"Reset", "Obs", "SeqNext", "ExecTxs", "Bcast", "KV", "Restart", "Quiesce", "Panic"}
 
 TOther ==
-    /\ l <= N /\ e.ev \notin Handled /\ Adv
+    /\ l <= N /\ Adv
+    /\ (e.ev \notin Handled \/ (e.ev \in {"Obs", "ExecTxs", "Bcast", "KV", "Restart"} /\ e.node # "seq"))
     /\ UNCHANGED <<run, ih, taken, committed, published, durH, bh, stValid, stH, stRoot, stOk, settleH, viol>>
 
 Next == TReset \/ TObs \/ TSeqNext \/ TExec \/ TBcast \/ TKV \/ TRestart \/ TQuiesce \/ TPanic \/ TOther
